@@ -491,7 +491,8 @@ def run_property(prop, jobs, tier, level="proof", assumptions=(), trusted_base=(
             if ent["status"] != "FAILURE":
                 # UNKNOWN only appears next to a FAILURE in the same run
                 continue
-            if (ent["description"] or "").startswith("infra:"):
+            if (ent["description"] or "").startswith("infra:") or ".no-body." in (ent.get("obligation") or ""):
+                # a callee without a body is a gap in the job's source list, never a verdict on the code
                 infra.append("%s: %s" % (j.name, ent["description"]))
                 continue
             k = match_known(known, j.name, ent)
